@@ -99,6 +99,16 @@ func (ex *Exec) sqlArg(v Value) (SVal, *MapObj) {
 		if x.typ == nil {
 			return SVal{v: tt.BV(0, 64), null: tt.Bool(true)}, nil
 		}
+		// driver.Valuer implementations of database/sql: NullString / NullInt64 / NullInt32 / NullBool (value, Valid)
+		if nt, ok := x.typ.(*types.Named); ok && nt.Obj().Pkg() != nil && nt.Obj().Pkg().Path() == "database/sql" && strings.HasPrefix(nt.Obj().Name(), "Null") {
+			if sv, ok := x.v.(*StructV); ok && len(sv.fs) == 2 {
+				if valid, ok := sv.fs[1].(*Term); ok && valid.sort == SBool {
+					in, m := ex.sqlArg(sv.fs[0])
+					in.null = tt.Or(in.null, tt.Not(valid))
+					return in, m
+				}
+			}
+		}
 		return ex.sqlArg(x.v)
 	case *Term:
 		switch {
